@@ -139,6 +139,47 @@ def load_known():
     return findings, fixed
 
 
+def _log_arguments_are_inert(ctx):
+    """L1, for every function a property's rules looked at: the arguments of a log macro are evaluated only when that level is
+    enabled, so they must not change anything — `log::trace!("{:?}", candidates.by_ref().take(3))` consumes the candidates exactly
+    when someone turns tracing on.  Between the level test and the call of the logger no named variable of the function is borrowed
+    mutably."""
+    from .cfg import cfg_of
+    from .facts import callee_name
+    P = ctx.P
+    n = 0
+    for fid in sorted(ctx.functions):
+        b = P.bodies.get(fid)
+        if b is None or "::test" in fid:
+            continue
+        gates = [bb for bb, tm in b.calls() if (callee_name(tm) or "") == "log::max_level"]
+        if not gates:
+            continue
+        named = {tuple(v["place"])[0]: v["name"] for v in b.vars if "place" in v and len(v["place"]) == 1 and v.get("name") and not v["name"].startswith("__")}
+        cfg = cfg_of(b)
+        logs = [bb for bb, tm in b.calls() if (callee_name(tm) or "").startswith("log::__private_api::log")]
+        for g in gates:
+            n += 1
+            after = cfg.reachable_from(g)
+            mine = [l for l in logs if l in after and cfg.dominates(g, l)]
+            if not mine:
+                continue
+            l0 = min(mine, key=lambda x: len(cfg.reachable_from(g, blocked=(x,))))
+            region = {x for x in cfg.reachable_from(g, blocked=(l0,)) if cfg.dominates(g, x) and l0 in cfg.reachable_from(x)}
+            hits = []
+            for x in region:
+                for st in b.blocks[x]["stmts"]:
+                    rv = st.get("rv")
+                    if rv and rv["k"] == "ref" and rv.get("bk") == "mut" and rv["place"][0] in named and "*" not in rv["place"]:
+                        hits.append("&mut %s at %s" % (named[rv["place"][0]], P.rel(st["sp"])))
+            ctx.check(not hits, "L1", "log-arguments-have-no-side-effects:%s@%s" % (fid.split("::{")[0].rsplit("::", 1)[-1], P.rel(b.blocks[g]["term"]["sp"]).split(":")[-1]),
+                      ctx.where(b, b.blocks[g]["term"]["sp"]),
+                      "a log macro's arguments borrow a variable mutably (%s): that only happens when the level is enabled, so behaviour "
+                      "depends on the log level" % "; ".join(sorted(set(hits))[:3]))
+    if n:
+        ctx.ok("L1", "log sites examined in the functions this property's rules looked at", "", "%d" % n)
+
+
 def run_property(prop, tier, seed, configs=None):
     t0 = time.time()
     mod = importlib.import_module("sa.rules.%s" % prop.lower())
@@ -180,6 +221,10 @@ def run_property(prop, tier, seed, configs=None):
             ctx.bad("anchor", "missing:%s" % hashlib.sha1(str(e).encode()).hexdigest()[:8], "", str(e))
         except Exception as e:
             ctx.bad("infrastructure", "exception", "", "rule crashed: %s\n%s" % (e, traceback.format_exc()[-3000:]))
+        try:
+            _log_arguments_are_inert(ctx)
+        except Exception as e:
+            ctx.bad("infrastructure", "exception", "", "log-argument rule crashed: %s\n%s" % (e, traceback.format_exc()[-2000:]))
         for i in ctx.instances:
             if cfg != "default":
                 i.key = i.key + "@" + cfg
